@@ -107,19 +107,33 @@ def specTable (h : Hierarchy) (c : Cls) (table : List EntryObs) : Option String 
       | some n => some s!"table: method={n} watches but is not registered"
       | none => none
 
-/-- `on_init=True` adds exactly one call at construction -/
-def specInit (h : Hierarchy) (c : Cls) (init : List Name) : Option String :=
-  match (methodNames h c).find? (fun n => init.count n ≠ (if specOnInit h c n then 1 else 0)) with
-  | some n => some s!"init: method={n} expected={if specOnInit h c n then 1 else 0} got={init.count n}"
+/-- the assignments the on_init methods make during construction: each assigning method whose resolved
+declaration is watched and on_init assigns once (distinct parameters, values different from the defaults) -/
+def initAssignments (h : Hierarchy) (c : Cls) (as : Assigns) : List (Key × Int) :=
+  (as.filter (fun a => specOnInit h c a.1)).map (fun a => (⟨a.2.1, "value"⟩, a.2.2))
+
+/-- `on_init=True` adds exactly one call at construction, and every assignment an on_init method makes
+while the object is constructed calls each method depending on the assigned parameter exactly once -/
+def specInit (h : Hierarchy) (fuel : Nat) (c : Cls) (vals : List (Key × Int)) (as : Assigns) (init : List Name) : Option String :=
+  let changed := (changedKeys vals (initAssignments h c as)).1
+  let expected := fun n =>
+    (if specOnInit h c n then 1 else 0) +
+    (if resolvedWatches h c n then
+       match specDeps h fuel c n with
+       | some ds => (changed.filter (fun k => ds.contains k)).length
+       | none => 0
+     else 0)
+  match (methodNames h c).find? (fun n => init.count n ≠ expected n) with
+  | some n => some s!"init: method={n} expected={expected n} got={init.count n}"
   | none => none
 
 def specAll (h : Hierarchy) (fuel : Nat) (c : Cls) (fns : List FnDecl) (vals : List (Key × Int))
-    (ops : List Op) (o : Obs) : Nat × Option String :=
+    (ops : List Op) (o : Obs) (as : Assigns := []) : Nat × Option String :=
   match specTable h c o.table with
   | some r => (0, some r)
   | none =>
-    match specInit h c o.init with
+    match specInit h fuel c vals as o.init with
     | some r => (0, some r)
-    | none => specSteps (targets h fuel c fns) 0 vals (ops.zip o.steps)
+    | none => specSteps (targets h fuel c fns) 0 (changedKeys vals (initAssignments h c as)).2 (ops.zip o.steps)
 
 end ParamVerif.Depends
